@@ -160,6 +160,11 @@ def canon_case(case, line):
     """keys -> ranks; dumps dropped (they are judged by the oracle and by the verified checker)"""
     rank = case.meta["rank"]
     res = []
+    if any(x.endswith(":oom") for x in split_out(line)) and case.meta.get("model") is not None:
+        # an explicit out-of-memory answer from a cache too small for the operation is a permitted outcome (C12): after it
+        # the engine has done less than the reference, and the case is not judged (the oracles skip it too)
+        case.meta["oom"] = True
+        return case.meta["model"]
     for seg in split_out(line):
         if seg.startswith("dump[") or seg.startswith("dumperr") or seg.startswith("free[") or seg in ("xok",) or seg.startswith("xerr"):
             continue
